@@ -70,7 +70,7 @@ def run(ck):
                 ck.count(("tforced", N, v), kind="template: forced output", nontrivial=False)
             # alias template: low/high of v + r, everything else re-derived on the real layout
             al = trunc_alias(snap, v, N)
-            if al and N >= 1 and (quick is False or N % 3 == 0 or N <= 40 or N >= 250):
+            if al and N >= 1:
                 w2 = list(snap.wits)
                 w2[low] = al[0] % R; w2[low + 1 + _nw(N)] = al[1] % R
                 high_idx = low + 1 + _nw(N)
